@@ -125,3 +125,15 @@ Proof.
   - vm_compute. auto.
   - vm_compute. reflexivity.
 Qed.
+
+(* chunk_order_permutation on the example: the shared chunk (index 2) emits m0, m1 *)
+From V Require Import C10.TotalProofs C10.DfsProofs.
+From Coq Require Import Permutation.
+Example ex_perm : match split ex_graph with
+  | Some r => Permutation (nth 2 (r_orders r) []) (c_files (nth 2 (a_chunks (r_analysis r)) dchunk))
+  | None => False end.
+Proof.
+  destruct (split ex_graph) as [r|] eqn:E; [|vm_compute in E; discriminate].
+  apply (chunk_order_permutation_all ex_graph r 2 E); [vm_compute; reflexivity|].
+  assert (R : Some r = split ex_graph) by (symmetry; exact E). vm_compute in R. inversion R. vm_compute. lia.
+Qed.
